@@ -34,7 +34,16 @@ var defaultInitAllow = []string{
 	"k8s.io/apimachinery/pkg/util/intstr",
 }
 
+// Packages of the module whose initialisers are not run (template function maps, metrics
+// registries): their functions are outside every harness or stubbed.
+var initDeny = map[string]bool{
+	"github.com/jcmoraisjr/haproxy-ingress/pkg/haproxy/template": true,
+}
+
 func (p *Program) initAllowed(path string) bool {
+	if initDeny[path] {
+		return false
+	}
 	for _, a := range p.InitAllow {
 		if strings.HasSuffix(a, "/") {
 			if strings.HasPrefix(path, a) {
